@@ -567,7 +567,7 @@ func genProc(r *rng.R) Input {
 		case 0:
 			lines = append(lines, r.Pick(commentLines))
 		case 1:
-			lines = append(lines, r.Pick([]string{`file /opt/app/aa\`, "file %s%d /x", "unk%s /opt/app/aa", `file '/opt/app/aa`,
+			lines = append(lines, r.Pick([]string{`file /opt/app/aa\`, "file %s%d /x", "unk%s /opt/app/aa", "typ% /opt/app/aa", "% /x", `file '/opt/app/aa`,
 				"file /opt/app/aa mod=%d", "file opt/app/%s", "omit /opt/nonexistent", "file /opt/app/aa uid=99999999999"}))
 		default:
 			lines = append(lines, RenderLine(genListLine(r, procTree, &known), ""))
